@@ -1,6 +1,7 @@
 mod alloc;
 mod common;
 mod fparse;
+mod ftamper;
 mod histex;
 mod model;
 mod parsex;
